@@ -14,6 +14,15 @@ Three case families, all on REAL records in a temporary directory (runner shared
 * find — `find_files`, `list_records`, `_is_valid_record_name` on generated directory
   listings with prefix-related names vs. `FindFiles.findFiles/listRecords/isValidName`.
   ORACLE: brute-force reading of the naming convention.
+* ub — the user-block codec: blocks written by the real `IH5UserBlock.save` (plain, manifest
+  extension, further `ub_exts` content of any size that fits, over zeros or over an older block)
+  and hand-made malformed heads; `IH5UserBlock.load` vs. `UBlock.loadText` (the text handed to
+  `json.loads`, or the error class).  ORACLE: what `save` accepted loads again, equal.
+
+Writes of the histories are datasets, groups, root attributes or attributes of an existing child
+(`["write", k, kind]`); record classes are IH5Record / IH5MFRecord and subclasses of both that
+store extra content in the documented `ub_exts` section of the user block on commit (`p+<n>` /
+`m+<n>`: n bytes) — for the record model they are the plain / manifest class.
 """
 import itertools
 import os
@@ -34,7 +43,7 @@ LEAN = dict(
         "open_a_creates_when_absent", "open_w_replaces", "open_x_refuses_existing", "open_x_creates_when_absent",
         "open_missing_r_fails", "sortByIdx_perm_invariant", "open_accepts_any_order", "open_yields_coherent",
         "reopen_same_view", "coherent_along_histories", "reopen_same_view_history", "discard_returns_to_commit",
-        "findFiles_exact", "findFiles_disjoint"]],
+        "findFiles_exact", "findFiles_disjoint", "ub_text_roundtrip", "ub_text_roundtrip_inplace", "probe_alone_truncates"]],
     drivers=["drv_rec"],
 )
 
@@ -54,7 +63,11 @@ def others_setup(c, k0=1000):
     return ops
 
 
-def situation_ops(c, sit, name="foo"):
+W = c02.write_op
+
+
+def situation_ops(c, sit, name="foo", wk="d"):
+    """`wk`: what the patches contain (dataset / group / root attribute / attribute of a child)"""
     if sit == "absent":
         return []
     ops = [["open", c, "x", "n", name], ["write", 1]]
@@ -63,29 +76,36 @@ def situation_ops(c, sit, name="foo"):
     ops += [["commit"]]
     if sit == "cbase":
         return ops + [["close", 1]]
-    ops += [["create"], ["write", 2], ["commit"]]
+    ops += [["create"], W(2, wk), ["commit"]]
     if sit == "patched":
         return ops + [["close", 1]]
-    return ops + [["create"], ["write", 3], ["close", 0]]
+    return ops + [["create"], W(3, wk), ["close", 0]]
 
 
-FOLLOW = [["read"], ["create"], ["write", 50], ["read"], ["discard"], ["read"], ["commit"], ["close", 1]]
+def follow_ops(wk="d"):
+    return [["read"], ["create"], W(50, wk), ["read"], ["discard"], ["read"], ["commit"], ["close", 1]]
 
 
-def mode_case(c, oc, sit, mode, by="n"):
-    pre = others_setup(oc) + situation_ops(c, sit)
+FOLLOW = follow_ops()
+
+
+def mode_case(c, oc, sit, mode, by="n", wk="d"):
+    pre = others_setup(oc) + situation_ops(c, sit, wk=wk)
     probe = ["open", c, mode, "n", "foo", "probe"]
-    post = [list(o) for o in FOLLOW] + [["open", c, "r", "n", "foo"], ["read"], ["close", 1]]
-    return dict(kind="mode", cls=c, ocls=oc, sit=sit, mode=mode, ops=pre + [probe] + post, probe=len(pre))
+    post = follow_ops(wk) + [["open", c, "r", "n", "foo"], ["read"], ["close", 1]]
+    return dict(kind="mode", cls=c, ocls=oc, sit=sit, mode=mode, wk=wk, ops=pre + [probe] + post, probe=len(pre))
 
 
-def reopen_case(rng, history, c, name, commit, nfiles_guess):
+def reopen_case(rng, history, c, name, commit, nfiles_guess, perms=None):
+    """`perms`: number of sampled permutations of the file list (default: all of them up to 4 files)"""
     ops = [list(o) for o in history] + [["close", 1 if commit else 0]]
     at = len(ops) - 1
     probes = []
     for m in ("r", "r+", "a"):
         probes += [["open", c, m, "n", name, "probe"], ["read"], ["restore"]]
-    if nfiles_guess <= 4:
+    if perms is not None:
+        seeds = [rng.randrange(0, 10 ** 9) for _ in range(perms)]
+    elif nfiles_guess <= 4:
         seeds = list(range(24 if nfiles_guess == 4 else (6 if nfiles_guess == 3 else 2)))
     else:
         seeds = [rng.randrange(0, 10 ** 9) for _ in range(20)]
@@ -184,7 +204,8 @@ def mode_oracle(case, recs):
             hit("w-kept-old-base")
     # discard_patch returns the view to the last commit
     if mode in ("r+", "a") and sit in ("cbase", "patched", "upatch"):
-        want = {"cbase": [["w1", 1]], "patched": [["w1", 1], ["w2", 2]], "upatch": [["w1", 1], ["w2", 2]]}[sit]
+        wk = case.get("wk", "d")
+        want = c02.expected_dump([(1, "d")] if sit == "cbase" else [(1, "d"), (2, wk)])
         rd = recs[i + 1 + 4]
         if rd["out"] != "ok":
             hit("discard-refused", got=rd["out"])
@@ -277,10 +298,201 @@ def find_impl(case):
     return dict(out=out, oracle=oracle, tags=tags)
 
 
+# ----------------------------------------------------------------------------- user-block codec
+HEAD = 1024
+PAYLOAD = bytes([0x89]) + b"HDF\r\n\x1a\n" + bytes(range(40))
+
+
+def _hex64(x):
+    return "%064x" % x
+
+
+def ub_object(spec):
+    """the IH5UserBlock a spec describes (all field values come from the spec)"""
+    from uuid import UUID
+    from metador_core.ih5.record import IH5UserBlock
+    exts = {}
+    if spec.get("mf"):
+        exts["ih5mf_v01"] = dict(is_stub_container=bool(spec.get("stub")), manifest_uuid=str(UUID(int=spec["u"][3])),
+                                 manifest_hashsum="sha256:" + _hex64(spec["u"][4]))
+    if spec.get("pad") is not None:
+        exts["vt_ext"] = dict(pad=spec["pad"])
+    return IH5UserBlock(record_uuid=UUID(int=spec["u"][0]), patch_index=spec["idx"], patch_uuid=UUID(int=spec["u"][1]),
+                        prev_patch=UUID(int=spec["u"][2]) if spec.get("prev") else None,
+                        hdf5_hashsum=("sha256:" + _hex64(spec["u"][5])) if spec.get("hash") else None, ub_exts=exts)
+
+
+def ub_make(spec):
+    """Pre-pass (real code): the bytes of a small file after `IH5UserBlock.save` (spec t=save: over zeros, or
+    over an older block `old` saved first), or hand-made bytes (t=raw). Returns the `ub` case."""
+    if spec["t"] == "raw":
+        return dict(kind="ub", hex=spec["hex"], saved=None, how="raw:" + spec.get("label", ""))
+    d = tempfile.mkdtemp(prefix="vt_ub_")
+    try:
+        path = os.path.join(d, "c.ih5")
+        with open(path, "wb") as f:
+            f.write(b"\x00" * HEAD + PAYLOAD)
+        how = "save"
+        if spec.get("old"):
+            try:
+                ub_object(spec["old"]).save(path)
+                how = "save-over-%s" % ("longer" if len(ub_object(spec["old"]).json()) > len(ub_object(spec).json()) else "shorter")
+            except AssertionError:
+                how = "save-over-refused"
+        saved = None
+        try:
+            ub = ub_object(spec)
+            ub.save(path)
+            saved = ub.json()
+        except AssertionError:
+            how += ":refused-too-long"
+        except Exception as e:  # noqa: BLE001 - recorded, the block on disk is then whatever was there
+            how += ":save-raised-" + type(e).__name__
+        with open(path, "rb") as f:
+            data = f.read()
+        return dict(kind="ub", hex=data.hex(), saved=saved, how=how)
+    finally:
+        shutil.rmtree(d, ignore_errors=True)
+
+
+def ub_impl(case):
+    """`IH5UserBlock.load` on the bytes of the case; the text it hands to `json.loads` is observed."""
+    import json as _json
+    from metador_core.ih5.record import IH5UserBlock
+    d = tempfile.mkdtemp(prefix="vt_ub_")
+    out, oracle, tags = [], [], ["ub:" + case.get("how", "")]
+    seen = []
+    orig = _json.loads
+
+    def spy(text, *a, **kw):
+        if not seen:
+            seen.append(text)
+        return orig(text, *a, **kw)
+    try:
+        path = os.path.join(d, "c.ih5")
+        with open(path, "wb") as f:
+            f.write(bytes.fromhex(case["hex"] or ""))
+        ret, err = None, None
+        _json.loads = spy
+        try:
+            ret = IH5UserBlock.load(path)
+        except BaseException as e:  # noqa: BLE001
+            err = e
+        finally:
+            _json.loads = orig
+        text = seen[0] if seen else (ret.json() if ret is not None else None)
+        if text is not None and isinstance(text, (bytes, bytearray)):
+            text = text.decode("utf-8", "replace")
+        if text is not None:
+            out.append("text " + (text.encode("utf-8").hex() or "-"))
+        elif isinstance(err, UnicodeDecodeError):
+            out.append("err outside")
+        elif isinstance(err, AssertionError):
+            out.append("err AssertionError")
+        elif isinstance(err, ValueError):
+            out.append("err ValueError")
+        else:
+            out.append("err " + type(err).__name__)
+        saved = case.get("saved")
+        if saved is not None:
+            # the block on disk is one `save` accepted: it is the user block of a container, the record
+            # holding it reopens only if it loads again — with the same content
+            tags.append("ub:text>499" if len(saved) > 499 else "ub:text<=499")
+            if err is not None:
+                oracle.append(dict(kind="ub-roundtrip", how=case.get("how"), saved_len=len(saved), error=type(err).__name__, msg=str(err)[:160]))
+            elif ret.json() != saved or ret._userblock_size != HEAD:
+                oracle.append(dict(kind="ub-roundtrip", how=case.get("how"), saved_len=len(saved), loaded=ret.json()[:200], size=ret._userblock_size))
+        else:
+            tags.append("ub:" + out[0].split(" ")[0] + ("" if text is not None else ":" + out[0].split(" ")[1]))
+    finally:
+        _json.loads = orig
+        shutil.rmtree(d, ignore_errors=True)
+    return dict(out=out, oracle=oracle, tags=tags)
+
+
+PAD_ALPHABET = "abcxyz0189 _-.:/{}[],"
+
+
+def gen_pad(rng, n):
+    s = "".join(rng.choice(PAD_ALPHABET) for _ in range(n))
+    if n >= 4 and rng.random() < 0.2:
+        # characters `json()` escapes (the text on disk stays ASCII without newline)
+        i = rng.randrange(0, n - 3)
+        s = s[:i] + rng.choice(['"', "\\", "\n", "\u00e4", "\t"]) + s[i + 1:]
+    return s
+
+
+def gen_ub_spec(rng, old_ok=True):
+    mf = rng.random() < 0.5
+    # length classes of the JSON text: short, around the 512-byte probe (text 499 = 512 - 13 header bytes),
+    # long, around the limit of the reserved block (text 1010), too long
+    base = 287 + 21 + (193 + 2 if mf else 0)
+    cls = rng.choice(["none", "short", "probe", "probe", "long", "long", "limit", "toolong"])
+    if cls == "none":
+        pad = None
+    else:
+        target = dict(short=rng.randrange(min(base, 479), 480), probe=rng.randrange(484, 530), long=rng.randrange(530, 990),
+                      limit=rng.randrange(995, 1016), toolong=rng.randrange(1016, 1200))[cls]
+        pad = gen_pad(rng, max(0, target - base))
+    spec = dict(t="save", mf=mf, stub=mf and rng.random() < 0.1, prev=rng.random() < 0.7, hash=rng.random() < 0.8,
+                idx=rng.choice([0, 1, 2, 9, 10, 123]), pad=pad, u=[rng.getrandbits(128) for _ in range(4)] + [rng.getrandbits(256) for _ in range(2)])
+    if old_ok and rng.random() < 0.45:
+        spec["old"] = gen_ub_spec(rng, old_ok=False)
+    return spec
+
+
+def gen_ub_raw(rng):
+    """hand-made heads: the malformed stream and odd-but-legal framings"""
+    magic = rng.choice(["ih5_v01"] * 6 + ["ih5_v02", "IH5_v01", "", "ih5_v01 "])
+    size = rng.choice(["1024"] * 4 + ["512", "513", "511", "0", "600", "2048", "4096", " 1024", "1024 ", "1_024", "+1024", "-1", "abc", "", "1e3", "10 24", "0x400"])
+    body = ub_spec_text(rng)
+    cut = rng.choice(["nul", "nul", "nul", "none", "early", "newline", "highbit"])
+    if cut == "nul":
+        data = body + b"\x00"
+    elif cut == "none":
+        data = body
+    elif cut == "early":
+        i = rng.randrange(0, len(body) + 1)
+        data = body[:i] + b"\x00" + body[i:]
+    elif cut == "newline":
+        i = rng.randrange(0, len(body) + 1)
+        data = body[:i] + b"\n" + body[i:] + b"\x00"
+    else:
+        i = rng.randrange(0, len(body) + 1)
+        data = body[:i] + bytes([rng.randrange(128, 256)]) + body[i:] + b"\x00"
+    head = magic.encode() + b"\n" + size.encode() + b"\n" + data
+    fill = rng.choice([b"\x00", b"\x00", b"z", b"}"])
+    total = rng.choice([HEAD, HEAD, 2048, 512, 300, len(head)])
+    raw = head + fill * max(0, total - len(head)) + (PAYLOAD if rng.random() < 0.7 else b"")
+    return dict(t="raw", hex=raw.hex(), label="%s/%s/%s" % (magic == "ih5_v01", size, cut))
+
+
+def ub_spec_text(rng):
+    """some JSON-looking ASCII text of a length class (content is irrelevant for the framing)"""
+    n = rng.choice([0, 1, 50, 300, 480, 497, 498, 499, 500, 501, 511, 512, 600, 900, 1009, 1010, 1011, 1500])
+    return ('{"record_uuid": "' + gen_pad(rng, n)).encode("ascii", "replace")[:n].replace(b"\n", b" ").replace(b"\x00", b" ")
+
+
+def gen_ub_cases(ctx, n_save, n_raw):
+    """the pre-pass runs the real `save` (pool) so that the cases carry plain bytes"""
+    from .. import pool
+    rng = ctx.rng
+    specs = [gen_ub_spec(rng) for _ in range(n_save)] + [gen_ub_raw(rng) for _ in range(n_raw)]
+    res = pool.run(MOD, "ub_make", specs, timeout=60)
+    cases = []
+    for sp, r in zip(specs, res):
+        if "ok" not in r:
+            raise lean.InfraError("ub_make failed on %s: %s" % (core.canon(sp)[:200], core.canon(r)[:300]))
+        cases.append(r["ok"])
+    return cases
+
+
 def impl(case):
     kind = case["kind"]
     if kind == "find":
         return find_impl(case)
+    if kind == "ub":
+        return ub_impl(case)
     recs, c02hits = c02.run_ops(case["ops"])
     oracle = []
     tags = []
@@ -298,6 +510,20 @@ def impl(case):
                 tags.append("reopen-uncommitted")
             if any(o[0] == "merge" for o in case["ops"][:at]):
                 tags.append("reopen-after-merge")
+            # what the newest container holds at the close (only root attributes, only groups, ...)
+            last = []
+            for o, r in zip(case["ops"][:at], recs[:at]):
+                if r["out"] != "ok":
+                    continue
+                if o[0] in ("create", "commit", "discard") or (o[0] == "open" and "rw=1" in r["h"] and set(r["before"]) != set(r["after"])):
+                    last = []
+                elif o[0] == "write":
+                    last.append(o[2] if len(o) > 2 else "d")
+            if "rw=1" in recs[at - 1]["h"] and n > 1:
+                tags.append("reopen-newest-holds:" + ("".join(sorted(set(last))) or "nothing"))
+            ext = sorted({c02.cls_pad(o[1]) > 0 for o in case["ops"] if o[0] in ("open", "openperm")})
+            if True in ext:
+                tags.append("reopen-extended-ublock")
     # the C02 monitor runs along (only the parts that do not depend on `w`): a committed file of a
     # record that was not truncated must not change either
     oracle += [dict(h, via="c02-monitor") for h in c02hits]
@@ -316,11 +542,17 @@ def lines(case):
         for fq in case.get("infer", []):
             L.append("infer " + hx(fq))
         return L
+    if case["kind"] == "ub":
+        return ["ubtext " + (case["hex"] or "-")]
     return c02.lines(case)
 
 
 def compare(case, ir, mo):
     if case["kind"] == "find":
+        return core.default_compare(case, ir, mo)
+    if case["kind"] == "ub":
+        if list(mo) == ["err outside"]:
+            return None  # non-ASCII bytes in the probed region: not modelled
         return core.default_compare(case, ir, mo)
     return c02.compare_lines(ir["out"], mo)
 
@@ -352,9 +584,10 @@ def gen_find(rng):
 def gen_reopen(rng, n_ops):
     """history on foo (opened by name), handle open at the end."""
     while True:
-        hist = c02.gen_history(rng, n_ops, with_others=rng.random() < 0.6)
+        hist = c02.gen_history(rng, n_ops, with_others=rng.random() < 0.6, kinds=rng.random() < 0.75)
         # cut after the last op that leaves the handle open: find the last `open` by name and keep ops up to a point before the next close
-        idx = [i for i, o in enumerate(hist) if o[0] == "open" and o[2] in ("r", "r+", "a", "x", "w", "w-")]
+        # (by name: a handle on an explicit selection of files is not "the record" that a reopen by name shows)
+        idx = [i for i, o in enumerate(hist) if o[0] == "open" and o[3] == "n" and o[2] in ("r", "r+", "a", "x", "w", "w-")]
         if not idx:
             continue
         i = idx[-1]
@@ -375,6 +608,11 @@ def gen_reopen(rng, n_ops):
             # reopen with the other class (only when no merge happened: a container merged by the plain
             # class keeps the manifest extension without a sidecar, which IH5MFRecord refuses — class mixing)
             c = rng.choice("pm")
+        if rng.random() < 0.3:
+            # subclasses that keep extra content in the `ub_exts` section of the user block
+            ext = {k: "%s+%d" % (k, c02.gen_pad_len(rng, k)) for k in "pm"}
+            ops = [[o[0], ext.get(o[1], o[1])] + list(o[2:]) if o[0] == "open" else o for o in ops]
+            c = ext[c] if rng.random() < 0.8 else c
         return reopen_case(rng, ops, c, name, rng.random() < 0.7, min(n, 6) if n > 4 else rng.choice([2, 3, 4]))
 
 
@@ -414,9 +652,39 @@ def gen_cases(ctx):
                 for k in range(2, nfiles + 1):
                     ops += [["commit"], ["create"], ["write", k]]
                 cases.append(reopen_case(rng, ops, c, "foo", not unc, nfiles))
+    # chains whose patches hold something else than datasets (groups, root attributes, attributes of a
+    # child of an older container), ended by close(commit) or left uncommitted
+    for c in "pm":
+        for nfiles in (2, 3):
+            for wk in "agn":
+                if ctx.quick and rng.random() < 0.5:
+                    continue
+                for unc in (False, True):
+                    ops = [["open", c, "x", "n", "foo"], ["write", 1]]
+                    for k in range(2, nfiles + 1):
+                        ops += [["commit"], ["create"], W(k, wk if k == nfiles or rng.random() < 0.5 else "d")]
+                    cases.append(reopen_case(rng, ops, c, "foo", not unc, nfiles, perms=None if not ctx.quick else 2))
+    # chains written by subclasses with extra user-block content of every length class
+    for k in "pm":
+        pads = c02.pad_classes(k)
+        for pad in (rng.sample(pads, 3) if ctx.quick else pads) + [c02.gen_pad_len(rng, k)]:
+            c = "%s+%d" % (k, pad)
+            ops = [["open", c, "x", "n", "foo"], ["write", 1], ["commit"], ["create"], W(2, rng.choice("dagn"))]
+            cases.append(reopen_case(rng, ops, c, "foo", True, 2, perms=None if not ctx.quick else 1))
+    # a sample of the mode table with other patch contents and with extended classes (thorough: all cells)
+    for c in "pm":
+        for sit in SITS:
+            for mode in MODES:
+                if ctx.quick and rng.random() < 0.75:
+                    continue
+                wk = rng.choice("agn")
+                cx = "%s+%d" % (c, c02.gen_pad_len(rng, c)) if rng.random() < 0.5 else c
+                cases.append(mode_case(cx, c, sit, mode, wk=wk))
     # (c) find_files / list_records
     for _ in range(150 if ctx.quick else 3000):
         cases.append(gen_find(rng))
+    # (d) user-block codec
+    cases += gen_ub_cases(ctx, 60 if ctx.quick else 1500, 50 if ctx.quick else 1500)
     return cases
 
 
@@ -424,14 +692,19 @@ def run(ctx):
     ctx.rule = ("cases: (mode) exhaustive open-mode table with follow-up calls (read, create_patch, write, discard_patch, commit_patch, close, "
                 "reopen r) next to prefix-related records; (reopen) random histories, close(commit yes/no), then reopen by name and by "
                 "permuted explicit file lists in r/r+/a, each probe undone by discard+close; (find) find_files/list_records/"
-                "_is_valid_record_name/_infer_name on generated listings of prefix-related, non-canonical and odd names. Non-trivial = "
+                "_is_valid_record_name/_infer_name on generated listings of prefix-related, non-canonical and odd names; (ub) IH5UserBlock.load on "
+                "blocks written by the real save (with ub_exts content of every length class up to the reserved 1024 bytes, over zeros or over an "
+                "older block) and on hand-made malformed heads. Writes are datasets, groups, root attributes or attributes of a child; record "
+                "classes include subclasses that store extra ub_exts content on commit. Non-trivial = "
                 "tagged: each table cell, reopen with 2..5 files, reopen of an uncommitted container, reopen after merge, find with several "
-                "hits, prefix-related names rejected, invalid names.")
+                "hits, prefix-related names rejected, invalid names, what the newest container holds at the close, extended user blocks, "
+                "user-block text longer / shorter than the first probe, each malformed-head outcome.")
     ctx.assumptions += list(dict.fromkeys([
         "sha256 of a container payload is modelled as the payload itself (collision-free digest)",
         "uuid1() is fresh (counter)",
         "one record handle at a time",
         "pathlib glob of `<name>*.ih5` inside one directory = fnmatch (prefix, anything, suffix); listing order is irrelevant (results sorted)",
+        "user-block text is ASCII (pydantic .json() escapes everything else); json.loads + pydantic on the text are not part of this model (C04/C11)",
     ]))
     cases = core.load_corpus(ID) + gen_cases(ctx)
     ctx.correspond("record-model", MOD, cases, lines, "drv_rec", compare=compare, timeout=180)
